@@ -2,86 +2,24 @@
    expressions: propTest alternatives, AND / OR chains, parentheses, and the
    root_types bookkeeping of _BooleanExpression.                              *)
 From Coq Require Import NArith ZArith List String Bool Lia.
-From V Require Import Model.PatternSyntax Proofs.PatternNumbers Proofs.PatternLit Proofs.PatternPath.
+From V Require Import Model.PatternSyntax Spec.PatternSpec Proofs.PatternR Proofs.PatternNumbers Proofs.PatternLit Proofs.PatternPath.
 Import ListNotations.
 Open Scope N_scope.
 
-Definition mk1 (isand : bool) (l : list aexpr) : aexpr :=
-  match l with [x] => x | _ => EBool isand l end.
 
-Definition order_cls (op : token) : cmpcls :=
-  match tk op with KGT => KlGt | KLT => KlLt | KGE => KlGe | _ => KlLe end.
 
-Fixpoint sv_pt (p : proptest) : aexpr :=
-  match p with
-  | PTEqual p nt op l => ECmp KlEq (sv_path_v p) (sv_lit l) (xorb (negb (tkind_eqb (tk op) KEQ)) nt)
-  | PTOrder p nt op l => ECmp (order_cls op) (sv_path_v p) (sv_lit l) nt
-  | PTSet p nt es => ECmp KlIn (sv_path_v p) (CList (map sv_lit es)) nt
-  | PTStr o p nt s => ECmp (strop_cls o) (sv_path_v p) (sv_lit s) nt
-  | PTParen e => EParen (mk1 false (sv_or_ops e))
-  | PTExists nt p => EParen (EBool false [])           (* not handled by the visitor; excluded by sem_pt *)
-  end
-with sv_and_ops (a : cmpand) : list aexpr :=
-  match a with
-  | CAndBase p => [sv_pt p]
-  | CAnd l r => sv_and_ops l ++ [sv_pt r]
-  end
-with sv_or_ops (o : cmpor) : list aexpr :=
-  match o with
-  | COrBase a => [mk1 true (sv_and_ops a)]
-  | COr l r => sv_or_ops l ++ [mk1 true (sv_and_ops r)]
-  end.
-Definition sv_and (a : cmpand) : aexpr := mk1 true (sv_and_ops a).
-Definition sv_or (o : cmpor) : aexpr := mk1 false (sv_or_ops o).
 
-(* root_types as _BooleanExpression computes them: from the first two
-   operands of a chain; later operands are appended without an update *)
+(* root_types as _BooleanExpression computes them (every operand of a chain counts) *)
 Definition pt_path (p : proptest) : option objpath :=
   match p with
   | PTEqual p _ _ _ | PTOrder p _ _ _ | PTSet p _ _ | PTStr _ p _ _ | PTExists _ p => Some p
   | PTParen _ => None
   end.
 
-Fixpoint rt_pt (p : proptest) : list ustring :=
-  match p with
-  | PTEqual p _ _ _ | PTOrder p _ _ _ | PTSet p _ _ | PTStr _ p _ _ | PTExists _ p => [tx (op_type p)]
-  | PTParen e => rt_or e
-  end
-with rt_and (a : cmpand) : list ustring :=
-  match a with
-  | CAndBase p => rt_pt p
-  | CAnd (CAndBase p) r => set_inter (rt_pt p) (rt_pt r)
-  | CAnd l _ => rt_and l
-  end
-with rt_or (o : cmpor) : list ustring :=
-  match o with
-  | COrBase a => rt_and a
-  | COr (COrBase a) r => set_union (rt_and a) (rt_and r)
-  | COr l _ => rt_or l
-  end.
 
 (* side conditions: literals the visitor can represent, paths it can build,
    no EXISTS (C10-exists-unhandled), and the library's own refusal of an AND
-   whose first two operands share no object type *)
-Fixpoint sem_pt (p : proptest) : bool :=
-  match p with
-  | PTEqual p _ _ l | PTOrder p _ _ l => path_sem p && lit_sem l
-  | PTSet p _ es => path_sem p && forallb lit_sem es
-  | PTStr _ p _ s => path_sem p
-  | PTParen e => sem_or e
-  | PTExists _ _ => false
-  end
-with sem_and (a : cmpand) : bool :=
-  match a with
-  | CAndBase p => sem_pt p
-  | CAnd l r => sem_and l && sem_pt r &&
-                match l with CAndBase p => negb (is_nil (set_inter (rt_pt p) (rt_pt r))) | _ => true end
-  end
-with sem_or (o : cmpor) : bool :=
-  match o with
-  | COrBase a => sem_and a
-  | COr l r => sem_or l && sem_and r
-  end.
+   whose operands share no object type *)
 
 (* ---- visit_children on lists of successes ---- *)
 
@@ -95,7 +33,7 @@ Qed.
 Lemma v_literal_ok : forall t, kind_in t primitive_kinds = true -> lit_sem t = true ->
   v_literal t = Ok (VConst (sv_lit t)).
 Proof.
-  intros t Hk Hs. unfold v_literal. rewrite (visit_lit t Hk Hs). destruct (tk t); reflexivity.
+  intros t Hk Hs. unfold PatternSyntax.v_literal. rewrite (visit_lit t Hk Hs). destruct (tk t); reflexivity.
 Qed.
 
 Lemma orderable_primitive : forall t, kind_in t orderable_kinds = true -> kind_in t primitive_kinds = true.
@@ -107,7 +45,7 @@ Qed.
 Lemma v_orderable_ok : forall t, kind_in t orderable_kinds = true -> lit_sem t = true ->
   v_orderable t = Ok (VConst (sv_lit t)).
 Proof.
-  intros t Hk Hs. unfold v_orderable. rewrite (visit_lit t (orderable_primitive t Hk) Hs). reflexivity.
+  intros t Hk Hs. unfold PatternSyntax.v_orderable. rewrite (visit_lit t (orderable_primitive t Hk) Hs). reflexivity.
 Qed.
 
 (* the children of a setLiteral *)
@@ -125,7 +63,7 @@ Proof.
   induction es as [|x r IH]; intros Hk Hs; [reflexivity|].
   cbn [forallb] in Hk, Hs. apply andb_true_iff in Hk, Hs. destruct Hk as [Hx Hk]. destruct Hs as [Sx Hs].
   destruct r as [|y r'].
-  - cbn [v_set_children set_vals seq_results]. rewrite (v_literal_ok x Hx Sx). reflexivity.
+  - cbn [PatternSyntax.v_set_children set_vals seq_results]. rewrite (v_literal_ok x Hx Sx). reflexivity.
   - change (v_set_children (x :: y :: r')) with (v_literal x :: tokv t_COMMA :: v_set_children (y :: r')).
     change (set_vals (x :: y :: r')) with (VConst (sv_lit x) :: VTok t_COMMA :: set_vals (y :: r')).
     cbn [seq_results]. rewrite (v_literal_ok x Hx Sx), (IH Hk Hs). reflexivity.
@@ -159,7 +97,7 @@ Lemma v_set_ok : forall es,
   forallb (fun t => kind_in t primitive_kinds) es = true -> forallb lit_sem es = true ->
   v_set es = Ok (VConst (CList (map sv_lit es))).
 Proof.
-  intros es Hk Hs. unfold v_set.
+  intros es Hk Hs. unfold PatternSyntax.v_set.
   assert (S : seq_results (v_set_children es ++ [tokv t_RPAREN]) = Ok (set_vals es ++ [VTok t_RPAREN])).
   { apply seq_results_app; [apply seq_set_children; assumption|reflexivity]. }
   cbn [app]. unfold tokv in *. rewrite (vc_cons_ok (VTok t_LPAREN) _ _ ltac:(discriminate) S). cbn [bind].
@@ -208,13 +146,17 @@ Proof.
   assert (M : mk_bool true [VExpr e (Some ra); VExpr e' (Some rb)] = Ok (VExpr (EBool true [e; e']) (Some (set_inter ra rb)))).
   { unfold mk_bool. cbn [bool_rts]. destruct ra as [|x ra']; [congruence|].
     destruct (set_inter (x :: ra') rb) as [|y s] eqn:E; [congruence|]. reflexivity. }
-  unfold m_cmp_and. cbn [List.length Nat.eqb child nth_error bind].
+  unfold PatternSyntax.m_cmp_and. cbn [List.length Nat.eqb child nth_error bind].
   destruct e; try exact M. discriminate He.
 Qed.
 
-Lemma m_cmp_and_append : forall b ops rt t e' rt',
-  m_cmp_and [VExpr (EBool b ops) rt; VTok t; VExpr e' rt'] = Ok (VExpr (EBool b (ops ++ [e'])) rt).
-Proof. reflexivity. Qed.
+Lemma m_cmp_and_append : forall ops r t e' r', set_inter r r' <> [] ->
+  m_cmp_and [VExpr (EBool true ops) (Some r); VTok t; VExpr e' (Some r')] =
+  Ok (VExpr (EBool true (ops ++ [e'])) (Some (set_inter r r'))).
+Proof.
+  intros ops r t e' r' H. unfold PatternSyntax.m_cmp_and. cbn [List.length Nat.eqb child nth_error bind].
+  rewrite append_operand_rep. cbn [rt_of_v]. destruct (set_inter r r') eqn:E; [congruence|]. reflexivity.
+Qed.
 
 Lemma m_cmp_or_fresh : forall e ra e' rb,
   is_or e = false -> ra <> [] ->
@@ -223,14 +165,19 @@ Proof.
   intros e ra e' rb He Hra.
   assert (M : mk_bool false [VExpr e (Some ra); VExpr e' (Some rb)] = Ok (VExpr (EBool false [e; e']) (Some (set_union ra rb)))).
   { unfold mk_bool. cbn [bool_rts]. destruct ra as [|x ra']; [congruence|]. reflexivity. }
-  unfold m_cmp_or. cbn [List.length Nat.eqb child nth_error bind].
+  unfold PatternSyntax.m_cmp_or. cbn [List.length Nat.eqb child nth_error bind].
   destruct e; try exact M.
   destruct isand; [|discriminate He]. cbn [as_tok bind]. exact M.
 Qed.
 
-Lemma m_cmp_or_append : forall ops rt e' rt',
-  m_cmp_or [VExpr (EBool false ops) rt; VTok t_OR; VExpr e' rt'] = Ok (VExpr (EBool false (ops ++ [e'])) rt).
-Proof. reflexivity. Qed.
+Lemma m_cmp_or_append : forall ops r e' r', r <> [] ->
+  m_cmp_or [VExpr (EBool false ops) (Some r); VTok t_OR; VExpr e' (Some r')] =
+  Ok (VExpr (EBool false (ops ++ [e'])) (Some (set_union r r'))).
+Proof.
+  intros ops r e' r' H. unfold PatternSyntax.m_cmp_or. cbn [List.length Nat.eqb child nth_error bind as_tok].
+  change (ustr_eqb (tx t_OR) (tx t_OR)) with true. cbn iota.
+  rewrite append_operand_rep. cbn [rt_of_v]. destruct r as [|x r0]; [congruence|]. reflexivity.
+Qed.
 
 Lemma m_cmp_and_one : forall v, m_cmp_and [v] = Ok v.
 Proof. reflexivity. Qed.
@@ -331,17 +278,17 @@ Proof.
     destruct (IHl Hwl Hsl) as [El Nl]. destruct (IHr Hwr Hsr) as [Er Nr].
     cbn [v_and]. rewrite El, Er. unfold visit_children. cbn [seq_results bind aggregate tokv].
     rewrite m_cmp_and_one. cbn [seq_results bind aggregate].
-    rewrite sv_and_CAnd.
+    rewrite sv_and_CAnd. cbn [rt_and].
+    apply negb_true_iff in Hrt.
+    assert (Hi : set_inter (rt_and l) (rt_pt r) <> []).
+    { intros E. rewrite E in Hrt. discriminate. }
+    split; [|exact Hi].
     destruct l as [p|l' r'].
     + (* first two operands: a fresh AndBooleanExpression *)
-      unfold sv_and. cbn [sv_and_ops mk1 app rt_and].
-      apply negb_true_iff in Hrt.
-      assert (Hi : set_inter (rt_pt p) (rt_pt r) <> []).
-      { intros E. rewrite E in Hrt. discriminate. }
-      split; [|exact Hi].
+      unfold sv_and. cbn [sv_and_ops mk1 List.app rt_and] in *.
       apply m_cmp_and_fresh; [apply sv_pt_not_bool|exact Nl|exact Hi].
-    + (* third and later operands are appended *)
-      rewrite sv_and_CAnd. split; [|exact Nl]. reflexivity.
+    + (* third and later operands are appended, root_types updated *)
+      rewrite sv_and_CAnd. apply m_cmp_and_append. exact Hi.
   - (* single AND chain *)
     intros a IH Hw Hs. cbn [wf_or sem_or] in Hw, Hs. destruct (IH Hw Hs) as [E N].
     split; [|exact N]. cbn [v_or]. rewrite E. reflexivity.
@@ -351,12 +298,12 @@ Proof.
     destruct (IHl Hwl Hsl) as [El Nl]. destruct (IHr Hwr Hsr) as [Er Nr].
     cbn [v_or]. rewrite El, Er. unfold visit_children. cbn [seq_results bind aggregate tokv].
     rewrite m_cmp_or_one. cbn [seq_results bind aggregate].
-    rewrite sv_or_COr.
+    rewrite sv_or_COr. cbn [rt_or].
+    split; [|apply set_union_nonnil; exact Nl].
     destruct l as [a|l' r'].
-    + unfold sv_or at 1. cbn [sv_or_ops mk1 app rt_or]. fold (sv_and a).
-      split; [|apply set_union_nonnil; exact Nl].
+    + unfold sv_or at 1. cbn [sv_or_ops mk1 List.app rt_or] in *. fold (sv_and a).
       apply m_cmp_or_fresh; [apply sv_and_not_or|exact Nl].
-    + rewrite sv_or_COr. split; [|exact Nl]. reflexivity.
+    + rewrite sv_or_COr. apply m_cmp_or_append. exact Nl.
 Qed.
 
 Lemma v_or_value : forall e, wf_or e = true -> sem_or e = true ->
